@@ -31,11 +31,17 @@ unless the library crashes):
                request head is then processed a second time and htp_tx_process_request_headers overwrites
                tx->request_hostname without freeing it (htp_transaction.c:500): LeakSanitizer, 35 bytes (C01 facet of
                the C09 finding; request side)
+  null_tx_callback  allow STOP/ERROR from RESPONSE_COMPLETE (hook 17) in a stream that contains an interim 100 response.
+               RES_BODY_DETERMINE goes back to RES_LINE for a 100 response WITHOUT finalising the RESPONSE_HEADER_DATA
+               receiver; if RESPONSE_COMPLETE then refuses, htp_tx_state_response_complete_ex returns before
+               htp_connp_res_receiver_finalize_clear, a later close detaches the transaction (out_tx = NULL) and the
+               end-of-call flush runs the RESPONSE_HEADER_DATA callback with d.tx == NULL (driver prints h12.-1).
+               The model's event type cannot name a NULL transaction: it sets c_fault and prints tx 0 (known mismatch)
 """
 import sys, random
 
 CR, LF = 13, 10
-DEFAULT_FLAGS = {"f1": True, "destroy_uaf": False, "stale_receiver": False, "connect_rerun": False}
+DEFAULT_FLAGS = {"f1": True, "destroy_uaf": False, "stale_receiver": False, "connect_rerun": False, "null_tx_callback": False}
 RES_HOOKS = [10, 11, 12, 13, 14, 15, 16, 17, 18]
 
 
@@ -321,7 +327,7 @@ def gen_callbacks(rng, n, flags):
         tail = tail_ops(rng)
         k = 0
         for ops in deliveries(rng, stream, flags, exhaustive_upto=0, multi=2):
-            out.append(mkcase(["O"] + ops + tail, cfg, mkscript(entries)))
+            out.append(mkcase(["O"] + ops + tail, cfg, mkscript(tame_100(entries, stream, flags))))
             k += 1
             if k >= 8:
                 break
@@ -401,6 +407,12 @@ def request(rng, kind=None):
     return b"GET / HTTP/1.1\r\n\r\n"
 
 
+def tame_100(entries, stream, flags):
+    if not flags["null_tx_callback"] and b" 100" in stream:
+        return [(h, k, 1 if (h == 17 and a in (2, 3)) else a) for h, k, a in entries]
+    return entries
+
+
 def tame_script(entries, has_connect, flags):
     if has_connect and not flags["connect_rerun"]:
         return [(h, k, 1 if (h <= 9 and a in (2, 3)) else a) for h, k, a in entries]
@@ -451,7 +463,9 @@ def gen_reqres(rng, n, flags):
         entries = []
         if rng.random() < 0.25:
             entries.append((rng.choice([0, 1, 4, 9, 10, 11, 13, 14, 17, 18]), rng.randint(0, 2), rng.choice([1, 2, 3])))
-        out.append(mkcase(ops + tail_ops(rng), rnd_cfg(rng, rng.random() < 0.3), mkscript(tame_script(entries, has_connect, flags))))
+        allrs = b"".join(bytes.fromhex(o[1:]) for o in ops if o[0] == "S" and len(o) > 1)
+        entries = tame_100(tame_script(entries, has_connect, flags), allrs, flags)
+        out.append(mkcase(ops + tail_ops(rng), rnd_cfg(rng, rng.random() < 0.3), mkscript(entries)))
     return out[:n]
 
 
@@ -518,7 +532,7 @@ def gen_reqres_merge(rng, n, flags):
         # a request that dies of the hard limit inside its header block leaves the receiver un-flushed: see stale_receiver
         small = rng.random() < 0.15 and flags["stale_receiver"]
         cfg = mkcfg(p=rng.randint(0, 9), hard=rng.randint(16, 64)) if small else rnd_cfg(rng, rng.random() < 0.3)
-        out.append(mkcase(ops + tail_ops(rng), cfg, mkscript(tame_script(entries, "connect" in kinds, flags))))
+        out.append(mkcase(ops + tail_ops(rng), cfg, mkscript(tame_100(tame_script(entries, "connect" in kinds, flags), rs, flags))))
     return out[:n]
 
 
